@@ -278,6 +278,40 @@ def family():
             if n != (49 if v == 3 else 32):
                 out.append(P("public_key_v%d_from_array%d" % (v, n), "key-construction", prog([
                     "let _ = PasetoAsymmetricPublicKey::<V%d, Public>::%s(&[2u8; %d]);" % (v, "try_from" if v == 3 else "from", n)]), False, "PasetoAsymmetricPublicKey<V%d, Public> from &[u8; %d]" % (v, n)))
+    # ---- a symmetric key typed for the Public purpose / an asymmetric key typed for the Local purpose through ANY conversion
+    #      from text or bytes (no such path may exist, whatever it is called)
+    text_and_bytes = [
+        ("try_from_str", "try_from(\"707172737475767778797a7b7c7d7e7f808182838485868788898a8b8c8d8e8f\")"),
+        ("try_from_string", "try_from(String::from(\"707172737475767778797a7b7c7d7e7f808182838485868788898a8b8c8d8e8f\"))"),
+        ("from_str_lit", "from(\"707172737475767778797a7b7c7d7e7f808182838485868788898a8b8c8d8e8f\")"),
+        ("from_slice", "from(&[7u8; 32][..])"),
+        ("try_from_slice", "try_from(&[7u8; 32][..])"),
+        ("from_vec", "from(vec![7u8; 32])"),
+        ("try_from_vec", "try_from(vec![7u8; 32])"),
+        ("from_array", "from([7u8; 32])"),
+        ("try_from_array_ref", "try_from(&[7u8; 32])"),
+    ]
+    for v in (1, 2, 3, 4):
+        for ident, expr in text_and_bytes:
+            out.append(P("symkey_public_v%d_%s" % (v, ident), "key-construction", prog([
+                "let _ = PasetoSymmetricKey::<V%d, Public>::%s;" % (v, expr)]), False, "PasetoSymmetricKey<V%d, Public>::%s" % (v, expr[:40])))
+        out.append(P("symkey_public_v%d_parse" % v, "key-construction", prog([
+            "let _ = \"707172737475767778797a7b7c7d7e7f808182838485868788898a8b8c8d8e8f\".parse::<PasetoSymmetricKey<V%d, Public>>();" % v]), False,
+            "str::parse::<PasetoSymmetricKey<V%d, Public>>" % v))
+        if v != 1:
+            for ident, expr in text_and_bytes[:2] + text_and_bytes[4:7]:
+                out.append(P("private_key_local_v%d_%s" % (v, ident), "key-construction", prog([
+                    "let _ = PasetoAsymmetricPrivateKey::<V%d, Local>::%s;" % (v, expr)]), False, "PasetoAsymmetricPrivateKey<V%d, Local>::%s" % (v, expr[:40])))
+                out.append(P("public_key_local_v%d_%s" % (v, ident), "key-construction", prog([
+                    "let _ = PasetoAsymmetricPublicKey::<V%d, Local>::%s;" % (v, expr)]), False, "PasetoAsymmetricPublicKey<V%d, Local>::%s" % (v, expr[:40])))
+    # ---- a public key made out of a private key of a version whose private key does not contain it (v1: a PKCS#8 document,
+    #      v3: a 48-byte scalar): whatever the conversion is called, its result cannot be of the documented size
+    for v in (1, 3):
+        for ident, line in (("from_ref", "let _pk = PasetoAsymmetricPublicKey::<V%d, Public>::from(&k);" % v),
+                            ("into", "let _pk: PasetoAsymmetricPublicKey<V%d, Public> = (&k).into();" % v),
+                            ("try_from_ref", "let _pk = PasetoAsymmetricPublicKey::<V%d, Public>::try_from(&k);" % v)):
+            out.append(P("public_from_private_v%d_%s" % (v, ident), "key-conversion", prog([
+                key_decl((v, "Public"), "build"), line]), False, "public key V%d out of a reference to the private key (%s)" % (v, ident)))
     # ---- an implicit assertion placed on a v1 / v2 object without the setter (field access, struct update)
     for v in (1, 2):
         for purpose in ("Local", "Public"):
